@@ -9,6 +9,14 @@
 //! observation must be identical.  A large-schema scenario (70 tables + 70
 //! indexes > the 64-entry open-file LRU) is compared with harness-computed
 //! contents, before and after a reopen.
+//!
+//! Session pass: the configuration is also switched IN THE MIDDLE of a session (one PRAGMA
+//! wal_autoflush=OFF|ON / synchronous=OFF / wal=ON|OFF at every position of the history, after
+//! some DML ran under the starting configuration) and the session is ended in every way
+//! {handle dropped, explicit close(), checkpoint() then drop}; the directory is then opened
+//! again under the default configuration and the full observation is compared with the
+//! reference (same DML, default configuration, no switch, dropped, reopened): statements
+//! executed after a PRAGMA must not be lost or reverted by the shutdown / recovery path.
 use checks::sqlh::{self, Res, TestDb};
 use std::collections::{BTreeMap, BTreeSet, HashMap};
 use std::rc::Rc;
@@ -1467,11 +1475,12 @@ impl Check for C42 {
         let mut s = Spec::new(
             PROP,
             "model_checking",
-            "a case is one (history, configuration) execution compared with the same history under the default configuration (WAL off). History = CREATE TABLE t variant (no PK / INT PK / PK + secondary index / AUTO_INCREMENT PK / PK with 1.5 KB TEXT values) followed by every sequence of <= d ops over {INSERT k, 2-row INSERT, prepared INSERT executed twice (cached-plan path), UPDATE by key, UPDATE all, DELETE by key, DELETE all, TRUNCATE, CREATE INDEX, ALTER ADD COLUMN, INSERT without id, BEGIN..COMMIT around a write, CREATE TABLE u, INSERT INTO u}, keys in {1,2,3}; configurations = wal {off,on} x synchronous {OFF,NORMAL,FULL} x wal_autoflush {on,off} x wal_checkpoint_threshold {1,2,default} (37 non-default valid combinations) — all of them up to the stated depth, a covering subset (each single deviation + corners) at the deepest level. Depth-first; a configuration that diverged on a prefix is not extended. Plus 12 large-schema scenarios (70 tables + 70 indexes, round-robin / stride INSERT-SELECT-UPDATE, reopen) compared with harness-computed contents. Distinct = distinct (history, configuration); non-trivial = at least one op after CREATE. states = history prefixes executed, transitions = statements executed on the real Database.",
+            "a case is one (history, configuration) execution compared with the same history under the default configuration (WAL off). History = CREATE TABLE t variant (no PK / INT PK / PK + secondary index / AUTO_INCREMENT PK / PK with 1.5 KB TEXT values) followed by every sequence of <= d ops over {INSERT k, 2-row INSERT, prepared INSERT executed twice (cached-plan path), UPDATE by key, UPDATE all, DELETE by key, DELETE all, TRUNCATE, CREATE INDEX, ALTER ADD COLUMN, INSERT without id, BEGIN..COMMIT around a write, CREATE TABLE u, INSERT INTO u}, keys in {1,2,3}; configurations = wal {off,on} x synchronous {OFF,NORMAL,FULL} x wal_autoflush {on,off} x wal_checkpoint_threshold {1,2,default} (37 non-default valid combinations) — all of them up to the stated depth, a covering subset (each single deviation + corners) at the deepest level. Depth-first; a configuration that diverged on a prefix is not extended. Session pass: every history of <= 3 letters over {INSERT 1, INSERT 2, UPDATE 1, DELETE 1, prepared INSERT of 2 and 3} (thorough: a 9-letter DML alphabet, and depth 4 over the 5-letter one) with at most one mid-session PRAGMA switch (wal_autoflush=OFF|ON, synchronous=OFF, wal=ON|OFF; at every position, only switches that change the starting configuration) under the starting configurations {wal=ON, wal=ON+wal_autoflush=OFF, default} (thorough: 7), ended by {drop, close()} (thorough: also checkpoint()+drop), reopened under the default configuration and fully observed; reference = the same DML under the default configuration, dropped and reopened. Plus 12 large-schema scenarios (70 tables + 70 indexes, round-robin / stride INSERT-SELECT-UPDATE, reopen) compared with harness-computed contents. Distinct = distinct (history, configuration); non-trivial = at least one op after CREATE. states = history prefixes executed, transitions = statements executed on the real Database.",
         );
         s.assumptions = &[
             "differential oracle: twin database under the default configuration; no reference semantics",
             "statement results are compared by class (rows as bags, affected counts, DDL tag); error texts are not compared",
+            "session pass: pragmas are process-memory only, so the reopened database runs under the default configuration; whatever configuration (switched or not) and whatever ending the first session had, the reopened directory must show the state the same DML leaves under the default configuration",
             "large-schema oracle: contents computed by the harness (each table gets known rows; UPDATE touches a non-indexed column); no INSERT after the reopen (that is known finding KF-C04-01 of property C04)",
             "the 64-entry LRU is observed through /proc/self/fd (open .tbd/.idx files of the database directory)",
         ];
